@@ -11,7 +11,7 @@ Has(r, f) == f \in DOMAIN r
 NTag(seq, tag) == Cardinality({k \in 1..Len(seq) : seq[k][2] = tag})
 Note(cond, seq, tag) == IF cond \/ NTag(seq, tag) >= 60 THEN seq ELSE Append(seq, <<l, tag>>)
 TInit == /\ l = 1 /\ viol = <<>> /\ drift = <<>> /\ nchk = 0 /\ nmixed = 0
-         /\ threads = <<>> /\ img = <<>> /\ i = 1 /\ arrOff = 0 /\ nNamed = 0 /\ pc = "trace" /\ oob = FALSE
+         /\ enum = <<>> /\ threads = <<>> /\ img = <<>> /\ i = 1 /\ arrOff = 0 /\ nNamed = 0 /\ pc = "trace" /\ oob = FALSE
 (* E.listed : Seq of [tid, readable, name]  (threads of the dump's thread list, in order; name = comm
               without the final newline, hex); E.names : Seq of [tid, name, ok] (decoded entries, array order) *)
 Exp(e) == {<<e.listed[k].tid, e.listed[k].name>> : k \in {j \in 1..Len(e.listed) : e.listed[j].readable}}
